@@ -186,6 +186,47 @@ pub fn run(tier: Tier, seed: u64) -> i32 {
         n_long.fetch_add(nl, Ordering::Relaxed);
     });
     report.count("opcode_sweep_headers", evals2.load(Ordering::Relaxed));
+    // off-axis (size, opcode) pairs: sizes and opcodes whose bytes come from {00,01,12,45,7F,80,C3,FF} (all combinations)
+    let bytes8: [u32; 8] = [0x00, 0x01, 0x12, 0x45, 0x7F, 0x80, 0xC3, 0xFF];
+    let mut grid_sizes: Vec<u32> = vec![];
+    for &a in &bytes8 {
+        for &b in &bytes8 {
+            for &c in &bytes8 {
+                let s = (a & 0x7F) << 16 | b << 8 | c;
+                grid_sizes.push(s);
+            }
+        }
+    }
+    grid_sizes.sort();
+    grid_sizes.dedup();
+    let mut grid_ops: Vec<u16> = vec![];
+    for &a in &bytes8 {
+        for &b in &bytes8 {
+            grid_ops.push((a << 8 | b) as u16);
+        }
+    }
+    let grid = AtomicU64::new(0);
+    grid_sizes.par_chunks(16).for_each(|part| {
+        let (mut se, _) = ciphers::wrath_server(&key).split();
+        let (_, mut cd) = ciphers::wrath_client(&key).split();
+        let mut ks = wrath_stream(&key, Dir::ServerToClient);
+        let mut n = 0u64;
+        for &size in part {
+            for &op in &grid_ops {
+                match one_header(&mut se, &mut cd, &mut ks, size, op) {
+                    Ok(_) => n += 1,
+                    Err((class, msg)) => {
+                        viol(&report, "pair-grid", class, &key, json!({"size": size, "opcode": op, "first_size_of_segment": part[0]}), msg);
+                        return;
+                    }
+                }
+            }
+        }
+        grid.fetch_add(n, Ordering::Relaxed);
+    });
+    report.count("off_axis_pair_headers", grid.load(Ordering::Relaxed));
+    report.space("off-axis pairs: every size x opcode whose bytes are drawn from {00,01,12,45,7F,80,C3,FF} (about 450 sizes x 64 opcodes)");
+
     // the COMBINED objects (ServerCrypto / ClientCrypto) on a strided subset: emitters and decoders alternate
     let comb = AtomicU64::new(0);
     let stride = tier.pick(5usize, 1usize);
@@ -311,7 +352,7 @@ pub fn run(tier: Tier, seed: u64) -> i32 {
             viol(&report, "header-sequences", "sequence", k, json!(p.iter().map(|a| json!({"size": a.size, "opcode": a.opcode, "two_step": a.two_step})).collect::<Vec<_>>()), m);
         }
     }
-    let total = evals.load(Ordering::Relaxed) + evals2.load(Ordering::Relaxed) + comb.load(Ordering::Relaxed);
+    let total = evals.load(Ordering::Relaxed) + evals2.load(Ordering::Relaxed) + comb.load(Ordering::Relaxed) + grid.load(Ordering::Relaxed);
     report.count("transitions", total);
     report.count("states", total + 1);
     report.set("traces_validated_against_impl", json!(report.get("transitions")));
